@@ -270,30 +270,36 @@ def confirm_async(binary, v):
         files['B.lua'] = b'function validate(ctx, content)\n  error("boom")\nend\n'
     files['S.lua'] = b'local n = 0\nfunction validate(ctx, content)\n  n = n + 1\n  return "call" .. n .. " in " .. ctx.file\nend\n'
     outs = {}
-    with c19.FakeEndpoint([dict(cond='Hcond', reply=('text', 'no'))], default=('text', 'OK')) as ep:
-        env = {'BLOCKWATCH_AI_API_KEY': 'k', 'BLOCKWATCH_AI_API_URL': 'http://127.0.0.1:%d/v1' % ep.port}
-        for pin in ('0', None):
-            for _ in range(3):
-                d = scratch_dir('c20a')
-                try:
-                    git_init(d)
-                    for name, content in files.items():
-                        pth = os.path.join(d, name)
-                        os.makedirs(os.path.dirname(pth), exist_ok=True)
-                        open(pth, 'wb').write(content)
-                    if pin is None:
-                        r = run_blockwatch(binary, d, ['**/*.py'], stdin=b'', env_extra=env, timeout=60)
-                    else:
-                        r = run_blockwatch('taskset', d, ['-c', pin, binary, '**/*.py'], stdin=b'', env_extra=env, timeout=60)
-                finally:
-                    shutil.rmtree(d, ignore_errors=True)
-                diags = {}
-                if r['stderr'].strip().startswith('{'):
+    # which of the two async validators finishes last is part of the schedule: once the endpoint answers at
+    # once while one Lua script spins, once the endpoint takes its time while every script returns at once
+    for label, slow_ai, spin in (('endpoint fast, script slow', 0.0, True), ('endpoint slow, scripts fast', 0.8, False)):
+        fs = dict(files)
+        if spin and variant != 'failing':
+            fs['A.lua'] = b'function validate(ctx, content)\n  local x = 0\n  for i = 1, 30000000 do x = x + 1 end\n  return "m1"\nend\n'
+        with c19.FakeEndpoint([dict(cond='Hcond', reply=('text', 'no'))], default=('text', 'OK'), slow_ok=slow_ai) as ep:
+            env = {'BLOCKWATCH_AI_API_KEY': 'k', 'BLOCKWATCH_AI_API_URL': 'http://127.0.0.1:%d/v1' % ep.port}
+            for pin in ('0', None):
+                for _ in range(2):
+                    d = scratch_dir('c20a')
                     try:
-                        diags = {k: sorted((x.get('code'), (x.get('data') or {}).get('lua_error', '')) for x in vs) for k, vs in json.loads(r['stderr']).items()}
-                    except ValueError:
-                        pass
-                outs.setdefault(json.dumps([r['code'], diags], sort_keys=True), []).append(pin or 'all cores')
+                        git_init(d)
+                        for name, content in fs.items():
+                            pth = os.path.join(d, name)
+                            os.makedirs(os.path.dirname(pth), exist_ok=True)
+                            open(pth, 'wb').write(content)
+                        if pin is None:
+                            r = run_blockwatch(binary, d, ['**/*.py'], stdin=b'', env_extra=env, timeout=90)
+                        else:
+                            r = run_blockwatch('taskset', d, ['-c', pin, binary, '**/*.py'], stdin=b'', env_extra=env, timeout=90)
+                    finally:
+                        shutil.rmtree(d, ignore_errors=True)
+                    diags = {}
+                    if r['stderr'].strip().startswith('{'):
+                        try:
+                            diags = {k: sorted((x.get('code'), (x.get('data') or {}).get('lua_error', '')) for x in vs) for k, vs in json.loads(r['stderr']).items()}
+                        except ValueError:
+                            pass
+                    outs.setdefault(json.dumps([r['code'], diags], sort_keys=True), []).append('%s; %s' % (label, pin or 'all cores'))
     v['observed'] = outs
     v['confirmed'] = len(outs) > 1
     if v['confirmed']:
